@@ -328,7 +328,24 @@ pub fn feature_doc(rng: &mut Rng, many_patterns: bool, allow_random: bool) -> St
     }
     let fragment = rng.chance(1, 8);
     if !fragment {
-        s.push_str("<svg>\n");
+        // author-supplied root attributes (kept verbatim, in document order)
+        let extras = [
+            "style=\"background: #eee\"",
+            "role=\"img\"",
+            "preserveAspectRatio=\"xMidYMid\"",
+            "data-a=\"1\"",
+            "data-b=\"two\"",
+            "aria-label=\"x\"",
+            "class=\"root\"",
+            "id=\"top\"",
+            "overflow=\"visible\"",
+            "xml:space=\"preserve\"",
+        ];
+        let k = if rng.chance(1, 2) { 0 } else { 2 + rng.usize(5) };
+        let mut picks: Vec<&str> = extras.to_vec();
+        rng.shuffle(&mut picks);
+        let attrs: String = picks.iter().take(k).map(|a| format!(" {a}")).collect();
+        s.push_str(&format!("<svg{attrs}>\n"));
     }
     if many_patterns {
         s.push_str(&format!(
@@ -390,6 +407,37 @@ pub fn leak_probe_doc(rng: &mut Rng) -> String {
         4 => "<svg><rect wh=\"4\" text=\"{{random()}} {{randint(1, 1000000)}}\"/><circle r=\"2\" cxy=\"^@br\"/></svg>".to_string(),
         _ => "<svg><circle cxy=\"^@t\" r=\"2\"/><rect wh=\"3\"/><rect wh=\"2\"/></svg>".to_string(),
     }
+}
+
+/// A document whose output depends on as much per-transform state as possible (the
+/// seeded random stream before / inside / after <specs>, variables accumulated in loops,
+/// reuse instances, defaults, previous-element references), so that state shared between
+/// two transforms in progress shows in the bytes.
+pub fn stateful_doc(rng: &mut Rng) -> String {
+    let mut s = String::from("<svg>\n");
+    if rng.chance(1, 2) {
+        s.push_str(&format!("  <config seed=\"{}\"/>\n", rng.below(1000)));
+    }
+    s.push_str("  <rect wh=\"4\" text=\"a{{randint(0, 999999)}}\"/>\n");
+    let nt = 1 + rng.usize(3);
+    s.push_str("  <specs>\n");
+    for t in 0..nt {
+        s.push_str(&format!(
+            "    <g id=\"t{t}\"><rect wh=\"$size\" text=\"$label-{{{{randint(0, 999999)}}}}\"/><circle r=\"{{{{randint(1, 9)}}}}\" cxy=\"^@br\"/><text xy=\"^|v\" text=\"{{{{random()}}}}\"/></g>\n"
+        ));
+    }
+    s.push_str("  </specs>\n");
+    s.push_str("  <rect xy=\"^|h 2\" wh=\"3\" text=\"b{{randint(0, 999999)}}\"/>\n");
+    s.push_str("  <var acc=\"0\"/>\n");
+    let n = 2 + rng.below(4);
+    s.push_str(&format!(
+        "  <loop count=\"{n}\" loop-var=\"i\">\n    <var acc=\"{{{{$acc + randint(1, 9)}}}}\"/>\n    <reuse href=\"#t{}\" size=\"{{{{1 + $i}}}}\" label=\"L$acc\" x=\"{{{{$i * 12}}}}\" y=\"9\"/>\n  </loop>\n",
+        rng.usize(nt)
+    ));
+    s.push_str("  <defaults><rect rx=\"{{randint(1, 3)}}\"/></defaults>\n");
+    s.push_str("  <g fill=\"red\" k=\"{{randint(0, 99)}}\"><rect xy=\"0 30\" wh=\"5\" text=\"$k $acc $fill\"/><rect xy=\"^|h\" wh=\"2\" text=\"c{{random()}}\"/></g>\n");
+    s.push_str("  <rect xy=\"^|v 1\" wh=\"3\" text=\"z{{randint(0, 999999)}} $acc\"/>\n</svg>\n");
+    s
 }
 
 pub const THEMES: &[&str] = &["default", "bold", "fine", "glass", "light", "dark"];
